@@ -538,10 +538,8 @@ void ICMPv6::add_addr_list(uint8_t type, const addr_list_type& value) {
 
 void ICMPv6::rsa_signature(const rsa_sign_type& value) {
     uint32_t total_sz = static_cast<uint32_t>(2 + sizeof(value.key_hash) + value.signature.size());
-    uint8_t padding = 8 - total_sz % 8;
-    if (padding == 8) {
-        padding = 0;
-    }
+    // The option's length covers the type and length octets as well
+    uint8_t padding = get_option_padding(total_sz + 2);
     vector<uint8_t> buffer(total_sz + padding);
     OutputMemoryStream stream(buffer);
     stream.write<uint16_t>(0);
